@@ -140,6 +140,38 @@ func c11ArgumentForms(r *vf.Run) {
 					bad = true
 				}
 			}
+			// (round 9) what Rows.Columns returns is the caller's: group-by lists of 3, 5, 6 and 7 entries, the column list
+			// of every execution overwritten by the caller, the statement executed again
+			for _, gb := range [][]string{{"level", "t", "name"}, {"level", "name", "level", "t", "name"}, {"t", "t", "t", "level", "level", "name"}, {"name", "level", "t", "name", "level", "t", "name"}} {
+				if bad {
+					return
+				}
+				txt := gen.FormatQuery(oracle.And(oracle.PhEq("name", 1), oracle.Eq("level", "2")), gb)
+				ps, err := db.Prepare(txt)
+				if err != nil {
+					r.Violation(cid, "prepare", map[string]any{"text": txt, "error": err.Error()})
+					bad = true
+					return
+				}
+				for round := 0; round < 3 && !bad; round++ {
+					v := []string{"grün", "x", "12"}[round]
+					rows, qerr := ps.Query(v)
+					var cs []string
+					if qerr == nil {
+						cs, _ = rows.Columns()
+					}
+					check(fmt.Sprintf("group-by list of %d entries, execution %d, after the caller overwrote the Columns() slices of the earlier executions", len(gb), round+1), oracle.And(oracle.Eq("name", v), oracle.Eq("level", "2")), gb, rows, qerr)
+					// this result has been read to its end: its column list is the caller's to do with as it likes
+					for i := range cs {
+						cs[i] = "overwritten by the caller"
+					}
+					if len(cs) > 1 {
+						cs = cs[:cap(cs)]
+						cs[0], cs[len(cs)-1] = cs[len(cs)-1], "overwritten by the caller"
+					}
+				}
+				ps.Close()
+			}
 			// 200 distinct texts, each once, then all again
 			for pass := 0; pass < 2 && !bad; pass++ {
 				for i := 0; i < 200 && !bad; i++ {
